@@ -20,7 +20,7 @@ type Call struct {
 // DV returns the dynamic value of the call's result (nil Value for defer/go).
 func (c Call) DV() DV {
 	v, _ := c.In.(ssa.Value)
-	return DV{v, c.Step.I}
+	return DV{v, c.Step.I, c.Step.F}
 }
 
 // Calls lists the calls executed on the path, in order.
@@ -205,7 +205,7 @@ func (p *Path) ReturnDV(i int) (DV, bool) {
 	if !ok || i >= len(r.Results) {
 		return DV{}, false
 	}
-	return p.Operand(r.Results[i], r.Block(), p.ExitI), true
+	return p.OperandF(r.Results[i], r.Block(), p.ExitI, p.ExitF), true
 }
 
 // CalleeName renders the callee of a call for reports.
